@@ -5,7 +5,7 @@
    No Extract Constant / Extract Inductive of our own. *)
 Require Extraction.
 Require Import ExtrOcamlBasic.
-From Otter Require Import Base Sketch Seq Spec Policy Wheel Maint Ring Mpsc HashMap.
+From Otter Require Import Base Sketch Seq Spec Policy Wheel Maint Ring Mpsc HashMap Load.
 (* run with cwd = /verif/ocaml: the extracted files land in the current directory *)
 Extraction "model.ml"
   Base.wrapu Base.wraps Base.satadd Base.abs64
@@ -22,4 +22,5 @@ Extraction "model.ml"
   Mpsc.mpsc_new Mpsc.push_reserve Mpsc.push_publish Mpsc.try_push Mpsc.try_pop Mpsc.mpsc_size Mpsc.mpsc_capacity
   Mpsc.pidx Mpsc.cidx Mpsc.plimit Mpsc.pmask Mpsc.cmask Mpsc.pbuf Mpsc.cbuf Mpsc.buf_len
   HashMap.hmap_new HashMap.hmap_get HashMap.hmap_compute HashMap.hmap_range HashMap.hmap_clear HashMap.hmap_layout HashMap.hsize HashMap.hgen HashMap.htlen
-  HashMap.h1 HashMap.h2 HashMap.broadcast HashMap.markZeroBytes HashMap.firstMarkedByteIndex HashMap.setByte.
+  HashMap.h1 HashMap.h2 HashMap.broadcast HashMap.markZeroBytes HashMap.firstMarkedByteIndex HashMap.setByte
+  Load.lstate0 Load.lstep Load.lmap Load.ltable Load.alookup Load.in_flight.
